@@ -627,9 +627,6 @@ func cdfChecks(f *Fam, p Params, report func(Failure), tried *int, extra []float
 	for i, x := range xs {
 		v := cdf(x)
 		if math.IsNaN(v) || v < -1e-12 || v > 1+1e-12 {
-			if f.Discrete && (x < 0 || int(x) >= len(p.Ps)) && math.IsNaN(v) && (int(x) >= len(p.Ps)) {
-				continue // index panic above the last category: reported by the support check
-			}
 			report(Failure{f.Name, "cdf-range", "Cdf", p, x, fmt.Sprintf("%v", v), "a value in [0,1]"})
 			continue
 		}
@@ -673,7 +670,7 @@ func cdfChecks(f *Fam, p Params, report func(Failure), tried *int, extra []float
 			report(Failure{f.Name, "cdf-limits", "Cdf", p, left, fmt.Sprintf("%v", v), "0 at the left end"})
 		}
 		// heavy tails (Cauchy-like shapes) approach 1 slowly: 1e-2 is enough to see a wrong limit
-		if v := cdf(right); !(math.Abs(v-1) < 1e-2) && !(f.Name == "FPareto" && p.Ps[1] < 0.5) && !((f.Name == "FGPareto" || f.Name == "FGev") && p.Ps[2] > 1) {
+		if v := cdf(right); !(math.Abs(v-1) < 1e-2) && !(f.Name == "FPareto" && p.Ps[1] < 0.5) && !(f.Name == "FPowerLaw" && p.Ps[0] < 1.5) && !((f.Name == "FGPareto" || f.Name == "FGev") && p.Ps[2] > 1) {
 			report(Failure{f.Name, "cdf-limits", "Cdf", p, right, fmt.Sprintf("%v", v), "1 at the right end"})
 		}
 	}
